@@ -244,6 +244,16 @@ impl Model {
         }
     }
 
+    /// The UDP socket whose binding matches `dst` (exact before wildcard, same family), peer filter
+    /// not applied. Used for coverage counters only.
+    pub fn udp_binding_match(&self, from: usize, dst: SocketAddr) -> Option<(usize, &MSock)> {
+        let dh = self.dest_host(from, dst.ip())?;
+        let socks = &self.hosts[dh].socks;
+        let on = |ip: IpAddr| socks.iter().find(|s| s.proto == Proto::Udp && s.local.port() == dst.port() && s.local.ip() == ip);
+        let wild: IpAddr = if dst.is_ipv4() { "0.0.0.0".parse().unwrap() } else { "::".parse().unwrap() };
+        on(dst.ip()).or_else(|| on(wild)).map(|s| (dh, s))
+    }
+
     /// Who gets a connection attempt from host `from` to `dst`?
     pub fn route_syn(&self, from: usize, dst: SocketAddr) -> SynExp {
         let Some(dh) = self.dest_host(from, dst.ip()) else {
